@@ -29,7 +29,8 @@ func lbl(name string, tags map[string]string) string { return name + tagString(t
 func c17Ops() []c17Op {
 	k1, k2 := map[string]string{"k": "1"}, map[string]string{"k": "2"}
 	vspec := tally.ValueBuckets{1, 2}
-	dspec := tally.DurationBuckets{time.Second, 2 * time.Second}
+	// bounds whose conversion to seconds is sensitive to how it is computed (1.14s, 1.39s)
+	dspec := tally.DurationBuckets{500 * time.Millisecond, 1140 * time.Millisecond, 1390 * time.Millisecond, 2 * time.Second}
 	var ops []c17Op
 	addC := func(t map[string]string, v int64) {
 		ops = append(ops, c17Op{fmt.Sprintf("c%s inc %d", tagString(t), v), func(r tally.Scope, m *c17Model) {
@@ -67,12 +68,12 @@ func c17Ops() []c17Op {
 		m.hsamples[lbl("hv", k2)] = append(m.hsamples[lbl("hv", k2)], 1)
 		m.hbounds[lbl("hv", k2)] = []float64{1, 2}
 	}})
-	for _, d := range []time.Duration{time.Second, 1500 * time.Millisecond, 3 * time.Second} {
+	for _, d := range []time.Duration{1140 * time.Millisecond, 1390 * time.Millisecond, time.Second, 3 * time.Second} {
 		d := d
 		ops = append(ops, c17Op{fmt.Sprintf("hd rec %v", d), func(r tally.Scope, m *c17Model) {
 			r.Histogram("hd", dspec).RecordDuration(d)
-			m.hsamples[lbl("hd", map[string]string{})] = append(m.hsamples[lbl("hd", map[string]string{})], d.Seconds())
-			m.hbounds[lbl("hd", map[string]string{})] = []float64{1, 2}
+			m.hsamples[lbl("hd", map[string]string{})] = append(m.hsamples[lbl("hd", map[string]string{})], float64(d)/float64(time.Second))
+			m.hbounds[lbl("hd", map[string]string{})] = dspec.AsValues()
 		}})
 	}
 	ops = append(ops, c17Op{"pass", nil})
